@@ -163,8 +163,17 @@ def fieldOptsOverride (h : Handling) (ft : Option Val) (name : String) (idx : In
     let child' := includeWildcard child t
     if ok then (fh, child')
     else
-      let leaves := child'.isNone && idx < 0 && name != "*"
-      if child'.isSome || leaves then (h, child') else (h, some t)
+      -- a key or list element without an entry leaves the configured paths (child' = none drops the tree)
+      (h, child')
+
+/-- merge.go fieldOptsOverrideIdx: the entry for the index if there is one, else the entry for all elements (`*`) -/
+def fieldOptsOverrideIdx (h : Handling) (ft : Option Val) (i : Nat) : Handling × Option Val :=
+  match ft with
+  | none => (h, none)
+  | some t =>
+    match fhNode t "" i with
+    | (_, child, ok) =>
+      if ok || child.isSome then fieldOptsOverride h ft "" i else fieldOptsOverride h ft "*" (-1)
 
 /-! ### merge with a per-field policy tree -/
 
@@ -181,9 +190,9 @@ def mergeValsF (h : Handling) (ft : Option Val) (old : Option Val) (v : Val) : V
         match so with
         | .sub d1 a1 hd1 ha1 =>
           .sub (if d2.isEmpty then d1 else mergeDictF h ft (if h = .replace then [] else d1) d2)
-            (arrPolicy h a1 a2 (mergeArrF (fieldOptsOverride h ft "*" (-1)).1 (fieldOptsOverride h ft "*" (-1)).2 0 a1 a2) ha1).1
+            (arrPolicy h a1 a2 (mergeArrF h ft 0 a1 a2) ha1).1
             (if d2.isEmpty then hd1 else true)
-            (arrPolicy h a1 a2 (mergeArrF (fieldOptsOverride h ft "*" (-1)).1 (fieldOptsOverride h ft "*" (-1)).2 0 a1 a2) ha1).2
+            (arrPolicy h a1 a2 (mergeArrF h ft 0 a1 a2) ha1).2
         | _ => so
       | .prim .nil => so
       | _ => v
@@ -200,7 +209,7 @@ def mergeArrF (h : Handling) (ft : Option Val) (i : Nat) (a1 : List Val) (a2 : L
   | a, [] => a
   | [], y :: b => cpy y :: cpyA b
   | x :: a, y :: b =>
-    store (some x) y (mergeValsF (fieldOptsOverride h ft "" i).1 (fieldOptsOverride h ft "" i).2 (some x) y)
+    store (some x) y (mergeValsF (fieldOptsOverrideIdx h ft i).1 (fieldOptsOverrideIdx h ft i).2 (some x) y)
       :: mergeArrF h ft (i+1) a b
 termination_by structural a2
 end
